@@ -22,7 +22,7 @@ func init() {
 			"C03.3 authenticateRequest returns hasAuth=true on exactly one return, dominated by: MESSAGE-INTEGRITY present, AuthHandler!=nil, NONCE decoded, req.NonceHash.Validate(that nonce)==nil, realm and username decoded, AuthHandler(username, realm of the message) ok, MessageIntegrity(key of that handler call).Check(stunMsg)==nil; the returned key and user are that call's results; every other return has hasAuth=false; " +
 			"C03.4 in the five non-Allocate handlers every state effect is dominated by a non-nil result of GetAllocationForUserID(request tuple, user) / GetTCPConnection(user, id) with user = result #2 of authenticateRequest, and those lookups return non-nil only on the userID equality edge; " +
 			"C03.5 challenge and validation use the same req.NonceHash, which is only assigned from Server.nonceHash; the challenge realm is req.Realm; " +
-			"C03.6 every NonceManager.Validate returns nil only on the true edge of hmac.Equal over a MAC keyed by the instance key and bytes of the presented nonce, and under an expiry comparison involving time.Now and the nonce; C03.6d the bytes fed to that HMAC are the byte range the timestamp is decoded from (or the low-order bytes of its encoding), in Generate, Validate and their helpers; C03.6e the MAC a validator computes is written into storage of its own (hash.Sum(nil) or a fresh buffer), never appended onto a slice of the presented nonce — Sum(b) appends, and in place when b has room, which would make the comparison compare the nonce with itself. C03.8 a nonce is refused only for what is in the nonce, the key and the clock (closed refusal set); C03.9 (=C17.7) the AuthHandler consulted is the operator's own. C03.10 a success response of an owner-gated method is built only under owner lookup != nil; C03.11 (=C16.13) a pending peer connection is touched (bind timer stopped) only after the user matched, and its single use is never handed back.",
+			"C03.6 every NonceManager.Validate returns nil only on the true edge of hmac.Equal over a MAC keyed by the instance key and bytes of the presented nonce, and under an expiry comparison involving time.Now and the nonce; C03.6d the bytes fed to that HMAC are the byte range the timestamp is decoded from (or the low-order bytes of its encoding), in Generate, Validate and their helpers; C03.6e the MAC a validator computes is written into storage of its own (hash.Sum(nil) or a fresh buffer), never appended onto a slice of the presented nonce — Sum(b) appends, and in place when b has room, which would make the comparison compare the nonce with itself. C03.8 a nonce is refused only for what is in the nonce, the key and the clock (closed refusal set); C03.9 (=C17.7) the AuthHandler consulted is the operator's own. C03.10 a success response of an owner-gated method is built only under owner lookup != nil; C03.11 (=C16.13) a pending peer connection is touched (bind timer stopped) only after the user matched, and its single use is never handed back. C03.12 the number of MAC bytes a nonce validator compares is fixed by the validator, never by the presented nonce (no slice bound of the expected MAC depends on the nonce argument).",
 		NotCovered: "strength of HMAC/MD5; the numeric value of the one-hour threshold beyond the comparison being present; what the operator's AuthHandler returns; interleavings.",
 		Run:        runC03,
 	})
@@ -737,6 +737,8 @@ func ruleChallenge(c *Ctx, rule string) {
 func ruleNonceValidators(c *Ctx, rule string) {
 	w := c.W
 	c.Rule(rule, "every implementation of NonceManager: Validate returns nil only (a) on the true edge of hmac.Equal(x, y) where one operand derives from the presented nonce and the other from an HMAC whose key is recv.key and whose input derives from the presented nonce; (b) under a comparison of a constant with a value that depends both on time.Now and on the presented nonce (the age of the nonce is bounded by a constant lifetime)", 2)
+	const ruleLen = "C03.12"
+	c.Rule(ruleLen, "every implementation of NonceManager: on the accepting path of Validate the number of MAC bytes compared is fixed by the validator (a constant, a field of the receiver, or the whole Sum), never by the presented nonce — no bound of a slice expression the expected MAC passes through on its way to hmac.Equal depends on the nonce argument (hmac.Equal over a prefix whose length the sender chooses makes the MAC guessable: two bytes are 65536 tries)", 2)
 	iface := w.Named("server", "NonceManager")
 	it := iface.Underlying().(*types.Interface)
 	scope := w.tpkg("server").Scope()
@@ -760,6 +762,7 @@ func ruleNonceValidators(c *Ctx, rule string) {
 	for _, impl := range impls {
 		fn := w.Func("server", impl.Obj().Name(), "Validate")
 		c.Anchor(rule, impl.Obj().Name())
+		c.Anchor(ruleLen, impl.Obj().Name()) // decided where C03.6 finds the MAC comparison; where it does not, C03.6 reports
 		param := fn.Params[1]
 		dep := func(v ssa.Value, on func(ssa.Value) bool) bool { return w.dependsOn(v, on, fn) }
 		onParam := func(v ssa.Value) bool { return v == ssa.Value(param) }
@@ -802,6 +805,7 @@ func ruleNonceValidators(c *Ctx, rule string) {
 			}
 			facts := w.factsAt(ret)
 			okMAC, okExp := false, false
+			var expdV ssa.Value
 			lifetimeSec := float64(-1)
 			macWhy := "no hmac.Equal on the path"
 			for _, f := range facts {
@@ -812,6 +816,7 @@ func ruleNonceValidators(c *Ctx, rule string) {
 							recvd, expd := pair[0], pair[1]
 							if dep(recvd, onParam) && !w.depWalk(recvd, nil, isKeyedMACIn) && keyedMACOverNonce(expd) {
 								okMAC = true
+								expdV = expd
 							}
 						}
 						if !okMAC {
@@ -877,6 +882,28 @@ func ruleNonceValidators(c *Ctx, rule string) {
 				c.OK(rule, fname(fn), "MAC check", w.instrPos(ret), "nil is returned only on the true edge of hmac.Equal(bytes of the nonce, HMAC(recv.key, bytes of the nonce))")
 			} else {
 				c.Bad(rule, fname(fn), "MAC check", w.instrPos(ret), "Validate can accept a nonce without an authentic MAC: "+macWhy, w.factsDesc(ret)...)
+			}
+			if okMAC && expdV != nil {
+				// C03.12: the length of the compared MAC is not chosen by the sender
+				bad := ""
+				v := w.resolveLoad(expdV)
+				for d := 0; d < 6 && bad == ""; d++ {
+					sl, isSl := v.(*ssa.Slice)
+					if !isSl {
+						break
+					}
+					for _, b := range []ssa.Value{sl.Low, sl.High, sl.Max} {
+						if b != nil && dep(b, onParam) {
+							bad = fmt.Sprintf("the expected MAC is cut at %s (%s), which depends on the presented nonce", w.key(b), w.instrPos(sl))
+						}
+					}
+					v = w.resolveLoad(sl.X)
+				}
+				if bad == "" {
+					c.OK(ruleLen, fname(fn), "MAC length", w.instrPos(ret), "no slice bound of the expected MAC depends on the presented nonce")
+				} else {
+					c.Bad(ruleLen, fname(fn), "MAC length", w.instrPos(ret), "the sender chooses how many MAC bytes are compared: "+bad+"; a nonce carrying the timestamp and a guessed short MAC prefix is accepted although this server never minted it")
+				}
 			}
 			if okExp && lifetimeSec >= 0 {
 				// C03.6e: the bound, converted to seconds through the units of the clock term
